@@ -29,7 +29,7 @@ def run():
     c.sample_from(paths[0], 2)
     c.exhaustive = thorough
     c.extra["distinct_nontrivial"] = sum(int(r.get("r4", 0)) + int(r.get("r5", 0)) + int(r.get("r6", 0)) + int(r.get("r7", 0)) + int(r.get("r8", 0)) for r in c.reports)
-    c.rule = ("update_crc16(s,b) for all 256 bytes and " + ("all 65536" if thorough else "generating (0, 0xFFFF, 2^k) + seeded") + " register values; update_crc32(s,b) for generating + seeded registers; "
+    c.rule = ("long inputs of 4 KiB .. 256 KiB around powers of two: one-shot value = byte-wise feed (TLC does not re-divide them bit by bit; the single steps are judged by the update rows); update_crc16(s,b) for all 256 bytes and " + ("all 65536" if thorough else "generating (0, 0xFFFF, 2^k) + seeded") + " register values; update_crc32(s,b) for generating + seeded registers; "
               "get_crc32 on 16-byte blocks with every byte value at every position (hits every entry of every slice table), with/without a preceding block and a tail; "
               "one-shot vs incremental vs bitwise for strings of every length 0..48 and longer; two-byte strings. Each recorded value is compared by TLC with the shift-register "
               "definition in Crc.tla. distinct_nontrivial = number of recorded (state/string, result) pairs judged.")
